@@ -223,3 +223,68 @@ func VerifC11_History() {
 	c11Check(w, cdc2, tasks, ":after-restart")
 	vReach("end")
 }
+
+// VerifC11_RestartAfterOutage: a create that runs into a store outage (up to two failing
+// store calls) is answered with an error but may leave its task record behind - in state
+// Initial when the start failed and the roll-back failed too. After a restart EVERY
+// persisted task is reloaded: the left-over task runs (or is paused when its start fails)
+// and the four views agree on it, exactly like for the regularly created task.
+func VerifC11_RestartAfterOutage() {
+	w := sNewWorld()
+	srv := &CDCServer{api: w.cdc, serverConfig: w.cdc.config}
+	for _, id := range []string{"task-1", "task-2"} {
+		for _, s := range []meta.TaskState{meta.TaskStateInitial, meta.TaskStateRunning, meta.TaskStatePaused} {
+			metrics.TaskNumVec.Delete(id, s)
+		}
+	}
+	a := &c11Task{target: c11T1, coll: "a"}
+	vAssume(c11Create(w, srv, a))
+	c := &c11Task{target: c11T1, coll: "c"}
+	if vBool("c.onOtherTarget") {
+		c.target = c11T2
+	}
+	w.f.faults, w.f.nFault, w.f.maxF = true, 0, 2
+	ok := c11Create(w, srv, c)
+	w.f.faults, w.f.maxF = false, 1
+	if !ok {
+		// the request was refused; whatever record it left behind is a persisted task
+		for _, i := range w.f.infos {
+			if i.TaskID != a.id {
+				c.id, c.created, c.exists, c.state = i.TaskID, true, true, i.State
+			}
+		}
+	}
+	vObserve("leftover", c.created && !ok)
+	tasks := []*c11Task{a, c}
+	// ---- restart ----
+	for _, t := range tasks {
+		for _, s := range []meta.TaskState{meta.TaskStateInitial, meta.TaskStateRunning, meta.TaskStatePaused} {
+			metrics.TaskNumVec.Delete(t.id, s)
+		}
+	}
+	w.collRds, w.chanRds = nil, nil
+	cdc2 := sNewCDC(w.f)
+	startFails := vBool("reload.startFails")
+	w.readerFails = startFails
+	cdc2.ReloadTask()
+	w.readerFails = false
+	for _, t := range tasks {
+		if !t.created {
+			continue
+		}
+		if startFails {
+			t.state = meta.TaskStatePaused
+		} else if t.state != meta.TaskStatePaused {
+			t.state = meta.TaskStateRunning
+		}
+	}
+	w.mgrs = w.mgrs[:0]
+	for _, ent := range cdc2.replicateEntityMap.data {
+		w.mgrs = append(w.mgrs, ent.channelManager.(*sChanMgr))
+	}
+	c11Check(w, cdc2, tasks, ":after-restart")
+	if c.created && !ok {
+		vReach("left-over-record-reloaded")
+	}
+	vReach("end")
+}
